@@ -15,11 +15,13 @@ enum Ast {
     Or(Box<Ast>, Box<Ast>),
 }
 
-const NAME_SETS: [[&str; 5]; 4] = [
+const NAME_SETS: [[&str; 5]; 6] = [
     ["A", "B", "C", "D", "E"],
     ["android", "order", "nothing", "allow", "offline"],
     ["andy", "orx", "notx", "ofx", "intx"],
     ["strx", "stringy", "fltx", "A1", "B_2"],
+    ["not_a", "or_b", "and_c", "all_d", "of_e"],
+    ["not.a", "or#b", "and.c", "int_f", "str_g"],
 ];
 
 /// a document value for a comparison leaf
@@ -412,7 +414,7 @@ fn measure() -> Option<Tables> {
 
 fn check_tree(a: &Ast, idx: usize, t: &Tables, variants: bool) -> Stats {
     let mut st = Stats::default();
-    let names = NAME_SETS[idx % 4];
+    let names = NAME_SETS[idx % NAME_SETS.len()];
     let k = leaves(a);
     let b = bare(a, &names);
     let f = full(a, &names);
@@ -535,7 +537,7 @@ pub fn run(tier: Tier) -> i32 {
     );
     rep.stats.sample(json!({"bare":"A and B or not C","grammar_tree":"((A) and ((B) or (not (C))))"}));
     rep.stats.sample(json!({"bare":"android or order and nothing","names":"keyword-prefixed identifiers"}));
-    rep.rule = "every condition tree with up to N leaves: all binary shapes x and/or at every internal node x not on up to two nodes (including double negation) x leaf kinds (identifier, all(S), of(S,1), int(f)==1, 1<int(f)) over four name sets including keyword-prefixed identifiers; printed with the minimal parentheses the stated grammar allows, fully parenthesised, with every single redundant parenthesis pair and with extra blanks/tabs; x all 3^k assignments of true/false/missing to the leaves. Oracle: every rendering must load and its three-valued result must equal the intended tree composed from the engine's own measured and/or/not tables (so a truth-table change cannot raise an alarm here)".into();
+    rep.rule = "every condition tree with up to N leaves: all binary shapes x and/or at every internal node x not on up to two nodes (including double negation) x leaf kinds (identifier, all(S), of(S,1), int(f)==1, 1<int(f)) over six name sets including keyword-prefixed identifiers (android, notx, not_a, or#b, and.c); printed with the minimal parentheses the stated grammar allows, fully parenthesised, with every single redundant parenthesis pair and with extra blanks/tabs; x all 3^k assignments of true/false/missing to the leaves. Oracle: every rendering must load and its three-valued result must equal the intended tree composed from the engine's own measured and/or/not tables (so a truth-table change cannot raise an alarm here)".into();
     rep.assumptions = vec!["malformed conditions (unbalanced parentheses, keyword followed by its own parenthesis) are not judged".into()];
     rep.finish()
 }
